@@ -236,6 +236,12 @@ pub fn configs(tier: Tier) -> Vec<InCfg> {
                     // chunks must still be read
                     alphabet.push(T::PubSplit { qos: 1, id: 0, len: 40 });
                 }
+                if n == 1 && sz == 65535 {
+                    // a publish in three writes: two payload chunks follow the announced part while the publish itself
+                    // holds the only slot - chunks must keep flowing (mutation-sweep survivor: after the first chunk the
+                    // middleware applied the count limit to the following ones and the payload never completed)
+                    alphabet.push(T::PubSplit3 { qos: 1, id: 0, len: 16 });
+                }
                 if ver == Ver::V5 && n == 1 && sz == 65535 {
                     // the peer completes its QoS 2 exchanges (PUBREL of the oldest id that has its PUBREC): the PUBCOMP
                     // gives the quota slot back (mutation-sweep survivor: the PUBREL path forgot to)
